@@ -258,6 +258,24 @@ def build_layers(layers, classes, base, context_class=OrderedContext):
     return ctx.create_child_context()
 
 
+def build_history(history, classes, base, context_class=OrderedContext):
+    """Chain of contexts for a history of registration attempts (models.resolve.registered:
+    layers nearest first, each a sequence of (overload, exclusive) in the order
+    made).  The host catches InvalidMethodException and carries on, as an
+    application that offers several candidate functions to a context would.
+    Returns (calling context, ((layer index, attempt index), ...) of the rejected attempts)."""
+    ctx = base
+    rejected = []
+    for li in reversed(range(len(history))):
+        ctx = context_class(ctx)
+        for ai, (o, exclusive) in enumerate(history[li]):
+            try:
+                ctx.register_function(definition(o, classes), exclusive=exclusive)
+            except exceptions.InvalidMethodException:
+                rejected.append((li, ai))
+    return ctx.create_child_context(), tuple(sorted(rejected))
+
+
 # constant -> (spelling, expression object the parser builds for it)
 CONSTANTS = {None: ('null', expressions.Constant(None)), 1: ('1', expressions.Constant(1)),
              'k': ("'k'", expressions.Constant('k')), 'kw': ('kw', expressions.KeywordConstant('kw'))}
